@@ -381,7 +381,7 @@ REG['C20'] = {
     'functions': ['SolarFestival::from_ymd / from_index / next', 'LunarFestival::from_ymd / from_index / next', 'LegalHoliday::from_ymd / next'],
     'L': [
         dict(id='c20_festivals', check='c20_festivals', range=(1, 9998), chunks=64, domain='civil dates 1900..2100, (year 1..9998, index), lunar dates 1900..2100, stepping samples', clause='festival lookups consistent in both directions; stepping n places along the list'),
-        dict(id='c20_holidays', check='c20_holidays', range=(0, 0), chunks=1, exhaustive=True, domain='every civil date 2000..2030; every record by stepping', clause='holiday table: real dates, membership, strictly increasing stepping'),
+        dict(id='c20_holidays', check='c20_holidays', range=(0, 15), chunks=16, exhaustive=True, domain='every civil date 2000..2030; every record x step counts +-1..60, +-100, +-200', clause='holiday table: real dates, membership, strictly increasing stepping'),
     ],
 }
 
